@@ -845,6 +845,13 @@ impl Session {
             stream_id,
             data.len()
         );
+        // A frame carries at most u16::MAX payload bytes: a larger chunk goes out as
+        // consecutive PSH frames so that the receiver sees the same byte stream.
+        let mut data = data;
+        while data.len() > u16::MAX as usize {
+            let head = data.split_to(u16::MAX as usize);
+            self.write_frame(Frame::data(stream_id, head)).await?;
+        }
         let frame = Frame::data(stream_id, data);
         self.write_frame(frame).await
     }
